@@ -30,6 +30,9 @@ DATA = {
               qha=dict(T_MIN=0, NT=2, DT=300, DT_SAMPLE=300, NTV=17, DELTA_P=3.0, DELTA_P_SAMPLE=3.0),
               output={"pressure_base": ["cij", "v"]}),
 }
+# D: data set A whose settings also carry QHA keys in another letter case (unknown to the schema and to qha: accepted and
+# ignored, so they must not make the result depend on anything)
+DATA["D"] = dict(DATA["A"], qha=dict(DATA["A"]["qha"], delta_p=0.5, nt=7, Order=4, Static_Only=True))
 READS = ["pb_adi_c11", "pb_iso_c11", "vb_KVRH", "adi_c11", "pb_vp", "pb_vol", "vb_s44", "iso_c12", "pb_c44"]
 INPUTS = {"settings.yaml", "input01", "elast.dat"}
 
@@ -71,7 +74,34 @@ def module_digest():
     from cij.io.output import results_writer
     from cij.io.config import apply_default_config
     return sha(json.dumps([results_writer.DEFAULT_WRITER_RULES, {k: repr(v) for k, v in sorted(qha.settings.DEFAULT_SETTINGS.items())},
-                           apply_default_config({})], sort_keys=True, default=repr).encode())
+                           apply_default_config({}), process_globals()], sort_keys=True, default=repr).encode())
+
+
+PANDAS_OPTIONS = ["display.precision", "display.float_format", "display.max_columns", "display.max_rows", "display.width", "display.max_colwidth",
+                  "display.expand_frame_repr", "display.colheader_justify", "display.chop_threshold", "display.show_dimensions",
+                  "mode.chained_assignment", "mode.copy_on_write", "mode.use_inf_as_na", "compute.use_numexpr", "compute.use_bottleneck",
+                  "future.no_silent_downcasting", "mode.string_storage"]
+
+
+def process_globals():
+    """process-wide settings of the libraries cij's writers and readers go through (a calculation must not leave them changed:
+    table labels are formatted by DataFrame.to_string, numbers by numpy's print options, arithmetic by numpy's error state)"""
+    import decimal
+    import locale
+    import numpy
+    import pandas
+    out = {}
+    for name in PANDAS_OPTIONS:
+        try:
+            out["pandas:" + name] = repr(pandas.get_option(name))
+        except Exception:
+            pass
+    out["numpy:printoptions"] = repr(sorted((k, v) for k, v in numpy.get_printoptions().items() if k != "override_repr"))
+    out["numpy:geterr"] = repr(sorted(numpy.geterr().items()))
+    out["decimal:prec"] = decimal.getcontext().prec
+    out["locale:numeric"] = repr(locale.getlocale(locale.LC_NUMERIC))
+    out["recursionlimit"] = sys.getrecursionlimit()
+    return out
 
 
 def dir_digest(d, exclude=()):
@@ -257,6 +287,14 @@ def run_history(case):
                     r = CliRunner().invoke(fill_main, [os.path.join(d, "C", "elast.dat"), "-s", "cubic"])
                     if r.exit_code != 0:
                         viol.append(V("c14:history:raises:fillcli", f"step {n}: cij fill failed: {r.exception!r}"))
+                elif op[0] == "fill-ignore":
+                    # a symmetry fill of a table that contradicts the system, accepted because the residual check is switched off
+                    import pandas
+                    from cij.util.fill import fill_cij
+                    df = pandas.DataFrame({"V": [300.0, 280.0], "c11": [301.5, 333.25], "c22": [303.0, 335.0], "c33": [301.5, 333.25],
+                                           "c12": [110.25, 121.5], "c44": [80.75, 88.5]})
+                    with K.chdir(d):
+                        fill_cij(df, "cubic", ignore_residuals=True)
                 elif op[0] == "refused":
                     # a calculation that FAILS earlier in the same process (a caller trying systems in a try/except loop)
                     try:
@@ -314,10 +352,10 @@ def valid_histories(alphabet, depth):
 def explore(ctx):
     ctx.rule = ("subprocess space: `cij run` under PYTHONHASHSEED in {0,1,2} (quick; full product for data set A, seed 1 for B and C) / "
                 "{0..15, random} (thorough) x 6 working-directory situations (incl. started elsewhere next to decoy inputs) x 3 data sets (+ interpreter started with -O, process locale C, a 20-column terminal), outputs byte-compared with a golden run; history space: all valid operation sequences of "
-                "depth <=3 (quick) / <=4 (thorough) over {new A/B, read(x, p), write(x), fill, cfg, run-static, cij fill, a construction refused by the symmetry check, input files rewritten in place with another data set} on real objects in long-lived workers, "
+                "depth <=3 (quick) / <=4 (thorough) over {new A/B, read(x, p), write(x), fill, cfg, run-static, cij fill, a construction refused by the symmetry check, input files rewritten in place with another data set, a fill with the residual check switched off} on real objects in long-lived workers, "
                 "plus all 35 order-preserving interleavings of A:[new,read,read,write] with B:[new,read,write]; oracles: every write "
                 "byte-identical to the golden files, every read bit-identical to a fresh process and to itself when repeated, working directory unchanged after every operation, module-level "
-                "state digests never change, fill(fill(x)) = fill(x); non-trivial = at least one comparison made")
+                "state digests (writer rules, qha and packaged defaults, pandas / numpy / decimal / locale process options) never change, fill(fill(x)) = fill(x); non-trivial = at least one comparison made")
     ctx.assumptions = ["goldens come from fresh interpreters with PYTHONHASHSEED=0 in a clean directory", "pint's internal conversion caches are not part of the state digest (keyed memoisation of immutable results)"]
     gold = {}
     from concurrent.futures import ThreadPoolExecutor
@@ -336,11 +374,12 @@ def explore(ctx):
     extras = ["none", "system-dir", "constraints-dir", "stale-outputs", "unrelated", "other-cwd-with-decoys"]
     cli = [{"data": dn, "seed": s, "extras": e, "golden": gold[dn]} for dn in DATA for s in seeds for e in extras
            if not ctx.quick or dn == "A" or s == "1"]
+    cli += [{"data": "D", "seed": s, "extras": "none", "golden": gold["D"]} for s in ("3", "4", "5", "6", "7") if ctx.quick]
     cli += [{"data": dn, "seed": "1", "extras": "none", "golden": gold[dn], "interp": it} for dn in (("A",) if ctx.quick else DATA)
             for it in ("-O", "LC_ALL=C", "narrow-terminal")]
     ctx.run(MOD, "run_cli_case", cli, part="subprocess-cli", chunksize=1)
     reads = READS[:3] if ctx.quick else READS[:5]
-    alphabet = [["new", "A"], ["new", "B"]] + [["read", x, p] for x in "AB" for p in reads] + [["write", "A"], ["write", "B"], ["fill"], ["cfg"], ["static"], ["fillcli"], ["refused"], ["swap", "A"]]
+    alphabet = [["new", "A"], ["new", "B"]] + [["read", x, p] for x in "AB" for p in reads] + [["write", "A"], ["write", "B"], ["fill"], ["cfg"], ["static"], ["fillcli"], ["refused"], ["swap", "A"], ["fill-ignore"]]
     hist = valid_histories(alphabet, 3 if ctx.quick else 4)
     a_ops = [["new", "A"], ["read", "A", "pb_iso_c11"], ["read", "A", "pb_adi_c11"], ["write", "A"]]
     b_ops = [["new", "B"], ["read", "B", "pb_adi_c11"], ["write", "B"]]
